@@ -873,6 +873,42 @@ def check_borrowed_arg(rep, prog):
     return n
 
 
+def check_probe_once(rep, prog):
+    """a probe handed to an allocator is the allocator's: the caller does not release it as well"""
+    rep.rule('R-probe-once', 'in every function with a struct uprobe * parameter: once the parameter has been passed to a pipe allocator (upipe_X_alloc.., to which the '
+             'probe belongs and which releases it when it fails), no uprobe_release of that parameter is reachable - it would take away a reference another '
+             'holder counts on. The wrappers generated by UPIPE_HELPER_ALLOC (alloc_output, alloc_input, the _sub forms) are siblings and must agree')
+    ALLOC = re.compile(r'^_?upipe_\w*alloc\w*$')
+    n = 0
+    units = list(prog.units.values()) + ([prog.hdr] if prog.hdr else [])
+    for u in units:
+        for fn in sorted(u.funcs.values(), key=lambda f: f.name):
+            if not fn.blocks:
+                continue
+            for P in [p_['n'] for p_ in fn.params if p_['t'] == 'struct uprobe *']:
+                def isP(a, P=P):
+                    a = strip_all_casts(a)
+                    return isinstance(a, dict) and a.get('k') == 'ref' and a.get('n') == P and a.get('d') == 'param'
+
+                def give(n_):
+                    return n_.get('k') == 'call' and n_.get('fn') and ALLOC.match(n_['fn']) and any(isP(a) for a in n_.get('args', []))
+
+                def rel(n_):
+                    return n_.get('k') == 'call' and n_.get('fn') == 'uprobe_release' and n_.get('args') and isP(n_['args'][0])
+                ev = pr.Events(fn)
+                for pos in ev.find(give):
+                    n += 1
+                    hits, _ = ev.reach((pos[0], pos[1]), rel, lambda n_: False)
+                    inst = '%s:%s(%s)' % (fn.name, pos[2]['fn'], P)
+                    if hits:
+                        rep.add('R-probe-once', inst, VIOLATED, '%s:%s' % (fn.file, hits[0][2].get('l')),
+                                what='%s hands its probe to %s (line %s) and can then release it itself (line %s): the allocator has released it already when it '
+                                     'fails, the probe loses a reference that is not this function\'s' % (fn.name, pos[2]['fn'], pos[2].get('l'), hits[0][2].get('l')))
+                    else:
+                        rep.add('R-probe-once', inst, HOLDS, fn.loc)
+    return n
+
+
 def run(tier='quick', repo=None):
     repo = repo or facts.REPO
     rep = Report(PROP, tier)
@@ -892,6 +928,9 @@ def run(tier='quick', repo=None):
     check_holdpin(rep, prog)
     check_own_pipe(rep, prog)
     check_use_then_fail(rep, prog)
+    npo = check_probe_once(rep, prog)
+    if npo < 100:
+        raise facts.AnalysisBroken('R-probe-once found only %d probes handed to allocators' % npo)
     nld = check_list_drain(rep, prog)
     if nld < (10 if tier == 'thorough' else 8):
         raise facts.AnalysisBroken('R-list-drain found only %d uref lists' % nld)
